@@ -95,6 +95,10 @@ def compare(loaded: dict, after: dict, before: dict, what: str):
     if after["mazes"] != before["mazes"]:
         raise core.Violation("C05.source-disturbed", f"{what}: serialising changed the source dataset's mazes")
     ka, kb = dict(after["cfg"]), dict(before["cfg"])
+    # the maze count is refreshed from the data by the documented in-place collection (update_self_config); it is not
+    # a compared field of a configuration, and a hand-assembled dataset may legitimately carry a stale one
+    ka.pop("n_mazes", None)
+    kb.pop("n_mazes", None)
     if _ds.key_relation(ka, kb) not in ("equal", "equal+cgm"):
         raise core.Violation("C05.source-disturbed", f"{what}: serialising changed the source configuration beyond the documented metadata collection")
     if loaded["cfg"] != after["cfg"]:
@@ -164,6 +168,27 @@ def st_segment(ops, base_dir, clock, files_model):
                         events.append(["filter", f["name"], len(slots[op[2]])])
                     except Exception as e:  # noqa: BLE001 - filters are C08's business
                         events.append(["filter-failed", f["name"], type(e).__name__])
+                elif name == "hand":
+                    # a dataset assembled by hand from the mazes of another one (sliced / repeated / re-ordered), the way user
+                    # code does it: the configuration is copied as it is, so its maze count may not match the data
+                    src = slots.get(op[1])
+                    if src is None or type(src).__name__ != "MazeDataset" or len(src) == 0:
+                        continue
+                    import copy
+
+                    from maze_dataset import SolvedMaze
+
+                    picked = [src.mazes[i % len(src)] for i in op[3]]
+                    strip = op[4]
+                    mazes = [SolvedMaze(connection_list=z.connection_list.copy(), solution=z.solution.copy(), generation_meta=None if strip else copy.deepcopy(z.generation_meta)) for z in picked]
+                    coll = copy.deepcopy(src.generation_metadata_collected) if op[5] else None
+                    if coll is None and not strip and any(z.generation_meta is None for z in mazes) and not all(z.generation_meta is None for z in mazes):
+                        continue  # partly stripped: collection is documented to raise
+                    d = MazeDataset(cfg=copy.deepcopy(src.cfg), mazes=mazes, generation_metadata_collected=coll)
+                    slots[op[2]] = d
+                    events.append(["hand", len(src), len(d), bool(strip), coll is not None, int(d.cfg.n_mazes)])
+                    if int(d.cfg.n_mazes) != len(d):
+                        bump("probe_handmade_count_differs_from_cfg")
                 elif name == "mkcoll":
                     members = [slots[s] for s in op[2] if s in slots and type(slots[s]).__name__ == "MazeDataset"]
                     if not members:
@@ -314,8 +339,13 @@ def gen_history(rng: random.Random, tier: str) -> dict:
                 ]
             )
             ops.append(["filter", src, dst, f])
-        elif r < 0.40:
+        elif r < 0.36:
             ops.append(["threshold", rng.choice(thresholds)])
+        elif r < 0.42:
+            src = rng.choice(slots)
+            dst = "s%d" % len(slots)
+            slots.append(dst)
+            ops.append(["hand", src, dst, [rng.randrange(12) for _ in range(rng.randint(1, 9))], rng.random() < 0.5, rng.random() < 0.5])
         elif r < 0.58:
             ops.append(["mem", rng.choice(slots), rng.choice(["serialize", "serialize", "full", "minimal", "soln_cat"])])
         elif r < 0.74:
